@@ -1662,6 +1662,11 @@ package bpmn
 //@               count(Call, code("tracing|ITracer.Unsubscribe")) == old(count(Call, code("tracing|ITracer.Unsubscribe")))
 //@     invariant [only-start-events-that-fired-are-counted] forall a int :: off(startEventsActivated) <= a && a < off(startEventsActivated) + len(startEventsActivated) ==> at(startEventsActivated, a) != nil
 //@     exit ensures [every-start-event-seen-before-waiting-for-tokens] len(startEventsActivated) == len(*p.element.StartEvents())
+//@     iter ensures [a-start-event-that-flowed-or-ended-without-flowing-is-counted-as-fired]
+//@       isRecv(ev(old(evlen))) && evch(ev(old(evlen))) == traces ==>
+//@         let t := tracing.Unwrap(evval(ev(old(evlen))).(tracing.ITrace)) in
+//@         ((is(t, TerminationTrace) && is(t.(TerminationTrace).Source, *schema.StartEvent)) ||
+//@          (is(t, FlowTrace) && is(t.(FlowTrace).Source, *schema.StartEvent))) ==> len(startEventsActivated) == old(len(startEventsActivated)) + 1
 
 // The waiter inside the monitor: closes its channel only after the wait group of tokens drained.
 //@ func (*Process).ceaseFlowMonitor$1$1
@@ -2025,7 +2030,7 @@ package bpmn
 // The sub-process's inner completion monitor (same protocol as the process's, C02): the inner cease-flow trace is sent
 // at most once, last, only after every inner start event was seen firing and the inner tokens' wait returned.
 //@ func (*subProcess).ceaseFlowMonitor$1
-//@   prop C12 C07
+//@   prop C12 C07 C02
 //@   recvinv FlowTrace: is(msg.Source, *schema.StartEvent) ==> msg.Source.(*schema.StartEvent) != nil
 //@   recvinv TerminationTrace: is(msg.Source, *schema.StartEvent) ==> msg.Source.(*schema.StartEvent) != nil
 //@   flag entrylocks
@@ -2047,6 +2052,11 @@ package bpmn
 //@               count(Call, code("tracing|ITracer.Unsubscribe")) == old(count(Call, code("tracing|ITracer.Unsubscribe")))
 //@     invariant [only-start-events-that-fired-are-counted] forall a int :: off(startEventsActivated) <= a && a < off(startEventsActivated) + len(startEventsActivated) ==> at(startEventsActivated, a) != nil
 //@     exit ensures [every-start-event-seen-before-waiting-for-tokens] len(startEventsActivated) == len(*sp.element.StartEvents())
+//@     iter ensures [a-start-event-that-flowed-or-ended-without-flowing-is-counted-as-fired]
+//@       isRecv(ev(old(evlen))) && evch(ev(old(evlen))) == traces ==>
+//@         let t := tracing.Unwrap(evval(ev(old(evlen))).(tracing.ITrace)) in
+//@         ((is(t, TerminationTrace) && is(t.(TerminationTrace).Source, *schema.StartEvent)) ||
+//@          (is(t, FlowTrace) && is(t.(FlowTrace).Source, *schema.StartEvent))) ==> len(startEventsActivated) == old(len(startEventsActivated)) + 1
 
 // The waiter inside the monitor: closes its channel only after the wait group of tokens drained.
 //@ func (*subProcess).ceaseFlowMonitor$1$1
